@@ -52,13 +52,13 @@ def has_empty_tuple(d):
     return False
 
 
-def regions_of(dump, defs):
+def regions_of(dump, defs, extra=()):
     """Known-finding regions a tree falls in (decided on the dump, not on the output)."""
     regs = set()
-    if has_empty_tuple(dump) or any(has_empty_tuple(d) for _, d in (defs or [])):
+    if has_empty_tuple(dump) or any(has_empty_tuple(d) for _, d in (defs or [])) or any(has_empty_tuple(d) for d in extra):
         regs.add("C03-empty-tuple-items")
     names = {}
-    for n, body in class_names(dump):
+    for n, body in class_names([dump] + list(extra)):
         names.setdefault(n, set()).add(body)
     if any(len(b) > 1 for b in names.values()):
         regs.add("C03-duplicate-class-names")
@@ -68,28 +68,33 @@ def regions_of(dump, defs):
         regs.add("C03-nothing-root")
     if defs:
         for key, d in defs:
-            if class_names(d):
+            # only classes the elements do not reach themselves (same name and body) are in the listed region
+            if any(body not in names.get(n, ()) for n, body in class_names(d)):
                 regs.add("C03-classes-only-in-definitions")
             if key in names:
                 regs.add("C03-duplicate-class-names")
     return regs
 
 
-def check_tree(drv, el, dump, defs, values, out, stats, history=()):
-    """defs: list of (key, real element, dump); history: the definitions of earlier serializations of this same tree object."""
+def check_tree(drv, el, dump, defs, values, out, stats, history=(), extra=()):
+    """defs: list of (key, real element, dump); history: the definitions of earlier serializations of this same tree object;
+    extra: further (element, dump) pairs passed after the primary (`serialize_json(el, *extra)`)."""
     kwargs = {"definitions": {k: e for k, e, _ in defs}} if defs else {}
     try:
-        doc = plain(serialize_json(el, **kwargs))
+        doc = plain(serialize_json(el, *[e for e, _ in extra], **kwargs))
         real = {"r": "ok", "json": core.enc_val(doc)}
     except TypeError:
         doc, real = None, {"r": "err", "kind": "primaryIsFalse"}
     except Exception as exc:  # noqa: BLE001
         doc, real = None, {"r": "exc:" + type(exc).__name__}
-    req = {"op": "serialize_json", "elements": [dump]}
+    req = {"op": "serialize_json", "elements": [dump] + [d for _, d in extra]}
     if defs:
         req["definitions"] = [[k, d] for k, _, d in defs]
     rep = drv.ask(req)
     case = {"element": dump, "definitions": [[k, d] for k, _, d in defs]}
+    if extra:
+        case["extra"] = [d for _, d in extra]
+        stats["several-elements"] = stats.get("several-elements", 0) + 1
     if history:
         case["earlier_serializations"] = [[[k, d] for k, _, d in h] for h in history]
         stats["re-serialized"] = stats.get("re-serialized", 0) + 1
@@ -102,7 +107,7 @@ def check_tree(drv, el, dump, defs, values, out, stats, history=()):
     out.traces_validated += 1
     if not agree:
         out.disagreements.append({"what": "serialize_json output", "impl": real, "model": rep, **case})
-    regs = regions_of(dump, [(k, d) for k, _, d in defs])
+    regs = regions_of(dump, [(k, d) for k, _, d in defs], [d for _, d in extra])
 
     def fail(what, region=None):
         fid = region if (agree and region in regs) else None
@@ -198,6 +203,29 @@ def run(ctx, scale=1.0):
                     if sd.get("cls") != "Object":
                         defs.append(("shared", dsl.build(sd), sd))
             check_tree(drv, el, dump, defs, values, out, stats)
+            if i % 5 == 1:
+                # several elements in one call: the later ones refer to the primary (when it is a class), to its classes, or are unrelated
+                extra = []
+                for j in range(rng.choice([1, 2])):
+                    roll = rng.random()
+                    if roll < 0.5:
+                        xd = {"cls": rng.choice(["Array", "Element"]), "kw": {}}
+                        if xd["cls"] == "Array":
+                            xd["kw"]["itemsKind"] = "single"
+                            xd["items"] = [dump]
+                        else:
+                            xd["kw"]["hasProps"] = True
+                            xd["props"] = [[{"name": "ref", "required": rng.random() < 0.5, "source": "ref"}, dump]]
+                    elif roll < 0.75:
+                        xd = {"cls": "Object", "name": f"Later{j}", "kw": {"hasProps": True},
+                              "props": [[{"name": "back", "required": False, "source": "back"}, dump]]}
+                    else:
+                        xd = dg.dump(1)
+                    extra.append((dsl.build(xd, {id(dump): el}), xd))
+                check_tree(drv, el, dump, [], values, out, stats, extra=extra)
+                if dump.get("cls") == "Object" and rng.random() < 0.5:
+                    dd = {"cls": "Array", "kw": {"itemsKind": "single"}, "items": [dump]}
+                    check_tree(drv, el, dump, [("list_of_root", dsl.build(dd, {id(dump): el}), dd)], values, out, stats)
             if defs:
                 # the same tree object again: without the definitions, then with the same keys bound to other elements
                 check_tree(drv, el, dump, [], values, out, stats, history=[defs])
@@ -232,7 +260,24 @@ def _replay_case(case):
                 serialize_json(el, **({"definitions": {k: dsl.build(d) for k, d in earlier}} if earlier else {}))
             except Exception:  # noqa: BLE001
                 pass
-        check_tree(drv, el, case["element"], defs, vals, out, stats)
+        def shared_build(d):
+            # a sub-dump equal to the primary's dump stands for the primary itself (same class object)
+            def link(x, reuse):
+                if isinstance(x, dict):
+                    if x == case["element"]:
+                        reuse[id(x)] = el
+                        return
+                    for v in x.values():
+                        link(v, reuse)
+                elif isinstance(x, list):
+                    for v in x:
+                        link(v, reuse)
+            reuse = {}
+            link(d, reuse)
+            return dsl.build(d, reuse)
+        defs = [(k, shared_build(d), d) for k, d in case.get("definitions", [])]
+        extra = [(shared_build(d), d) for d in case.get("extra", [])]
+        check_tree(drv, el, case["element"], defs, vals, out, stats, extra=extra)
     finally:
         drv.close()
     return out
